@@ -1,7 +1,47 @@
 (* Ldns — DNS (layers/dns.go): the layer's contribution to C19, C05, C06, C07, C01.
-   Property theorems only; each is closed by lemmas of Proofs/Ldns*.v. *)
-From GP Require Import Base N6Lib LdnsModel.
+   Property theorems only; each is closed by lemmas of Proofs/Ldns*.v.
+   The model is of the REPAIRED code (two fix: commits on dns.go); the *_orig definitions are the
+   unchanged code and carry the ..._refuted witnesses. *)
+From GP Require Import Base N6Lib LdnsModel LdnsDec.
 Open Scope Z_scope.
+
+(* ------------------------------------------------------------------ C19 *)
+(* DNS.DecodeFromBytes returns or errors for every byte string and every prior state of the
+   receiver.  It never panics, and it never hangs: the name-decompression recursion is bounded by
+   the 255-level limit (structural in the model), and the loops over labels, over collected wire
+   labels and over character strings never exhaust their fuel len(data)+1 (an exhausted fuel is the
+   outcome Panic N6_FUEL, which is_panic counts). *)
+Theorem C19_dns_no_panic : forall old data, bytes_ok data ->
+  is_panic (snd (fst (decode_into old data))) = false.
+Proof. exact decode_into_no_panic. Qed.
+Print Assumptions C19_dns_no_panic.
+
+(* a pointer loop: the question's name is a pointer to itself; 255 levels deep, then an error *)
+Example C19_dns_nonvacuous :
+  bytes_ok [0;1;1;0; 0;1;0;0;0;0;0;0; 192;12; 0;1;0;1] /\
+  snd (fst (decode_into dns_fresh [0;1;1;0; 0;1;0;0;0;0;0;0; 192;12; 0;1;0;1])) = Err E_NAME.
+Proof. split; [repeat constructor; unfold byte_ok; lia|vm_compute; reflexivity]. Qed.
+
+(* ------------------------------------------------------------------ C05 *)
+(* Decoding into a reused object = decoding into a fresh one: same outcome and truncated flag for
+   every input and every prior state; and as soon as the 12-byte header check passes — on success
+   and on every later error path alike — the WHOLE state (header fields, the four lists with all
+   RDATA fields and the private name metadata, contents, payload) is the one a fresh object gets.
+   A shorter input leaves the receiver exactly as it was (and is an error). *)
+Theorem C05_dns_fresh : forall old data,
+  let '(l1, r1, t1) := decode_into old data in
+  let '(l2, r2, t2) := decode_into dns_fresh data in
+  r1 = r2 /\ t1 = t2 /\ (12 <= n6_len data -> l1 = l2) /\ (n6_len data < 12 -> l1 = old /\ r1 = Err E_SHORT).
+Proof. exact decode_into_fresh. Qed.
+Print Assumptions C05_dns_fresh.
+
+Example C05_dns_nonvacuous :
+  let a := [0;1;129;128; 0;1;0;1;0;0;0;0; 1;97;0; 0;1;0;1; 192;12; 0;1;0;1; 0;0;0;9; 0;4; 1;2;3;4] in
+  let old := fst (fst (decode_into dns_fresh a)) in
+  length (d_answers old) = 1%nat /\
+  d_answers (fst (fst (decode_into old [0;2;1;0; 0;0;0;0;0;0;0;0]))) = [] /\
+  snd (fst (decode_into old [0;2;1;0; 0;0;0;0;0;0;0;0])) = Ok tt.
+Proof. vm_compute. repeat split. Qed.
 
 (* ------------------------------------------------------------------ C01 *)
 (* The renderers of a DNS layer are total on every state (see the comment at render_panics: the
